@@ -499,6 +499,8 @@ def run(chk):
         "harness tools/props/c20.py + tools/vlib/readerlib.py (materialises the files, calls read_input_syntax / read_input / write_to_file in-process)",
     ]
     leanio.prove(chk, "MontePyVerif.Props.C20", THEOREMS, "MontePyVerif.C20")
+    if chk.thorough:
+        leanio.leanchecker(chk, ["MontePyVerif.Props.C20"])
     drv = leanio.Driver(chk, "drv_c20")
 
     rng = chk.rng("trees")
